@@ -148,7 +148,7 @@ func CompareResult(b *hx.Built, r xsel.Result, err error, want spec.Val, wantFai
 }
 
 func genOpts() hx.GenOpts {
-	o := hx.GenOpts{MaxEvents: 4, MaxDepth: 2, Attrs: 1, NS: 0, Other: true, SymNames: true, TopLevel: true}
+	o := hx.GenOpts{MaxEvents: 4, MaxDepth: 2, Attrs: 1, NS: 1, Other: true, SymNames: true, TopLevel: true}
 	if nd.Tier() > 0 {
 		o.MaxEvents, o.MaxDepth, o.Attrs = 6, 3, 2
 	}
